@@ -226,6 +226,46 @@ func checkC16(c *Ctx) {
 			r.Unk("C16.3", "acceptLoop: chFromID", f.Pos(), fnName(f), "routing call not found")
 		}
 	}
+	// the check itself: the PRESENTED certificate must carry a signature made with the key of the EXPECTED certificate
+	// (which only a holder of the shared secret can derive)
+	if f := c.fn("C16.3", dt, "", "verifyCert"); f != nil && len(f.Params) == 2 {
+		presented := "x509.ParseCertificate(" + P(f, 0) + ")#0"
+		expected := "x509.ParseCertificate(" + P(f, 1) + ")#0"
+		var check *ssa.Call
+		how := ""
+		for _, ci := range callsIn(f, nameIs("(*crypto/x509.Certificate).CheckSignatureFrom")) {
+			call := ci.(*ssa.Call)
+			if pathOf(call.Call.Args[0]) == presented && pathOf(call.Call.Args[1]) == expected {
+				check, how = call, "presented.CheckSignatureFrom(expected)"
+			}
+		}
+		for _, ci := range callsIn(f, nameIs("(*crypto/x509.Certificate).CheckSignature")) {
+			call := ci.(*ssa.Call)
+			a := call.Call.Args
+			if len(a) == 4 && pathOf(a[0]) == expected && pathOf(a[2]) == presented+".RawTBSCertificate" && pathOf(a[3]) == presented+".Signature" {
+				check, how = call, "expected.CheckSignature(alg, presented.RawTBSCertificate, presented.Signature)"
+			}
+		}
+		okk := check != nil
+		nOK := 0
+		if okk {
+			eachInstr(f, func(in ssa.Instruction) {
+				ret, ok := in.(*ssa.Return)
+				if !ok || len(ret.Results) != 1 {
+					return
+				}
+				if cst, isC := returnedValue(ret, 0, nil).(*ssa.Const); !isC || cst.Value != nil {
+					return
+				}
+				nOK++
+				if !guarded(f, ret, errAtoms(check, true)...) {
+					okk = false
+				}
+			})
+		}
+		r.Check(okk && nOK > 0, "C16.3", "verifyCert: success only if the presented certificate is signed by the expected certificate's key", f.Pos(), fnName(f), how+"; nil return dominated by its err == nil",
+			"verifyCert accepts without checking the presented certificate against the key derived from the shared secret (wrong receiver / wrong data / unchecked result): any self-signed certificate passes and a peer with a different secret completes the handshake")
+	}
 	if f := c.fn("C16.3", dt, "Listener", "verifyConnection"); f != nil {
 		var gc, vc *ssa.Call
 		for _, ci := range callsIn(f, shortIs("getCert")) {
@@ -349,6 +389,60 @@ func checkC16(c *Ctx) {
 				g := guardedM(f, sel, func(cnd string, pol bool) bool { return !pol && strings.HasPrefix(cnd, "bytes.Equal(c.hb, ") })
 				r.Check(g, "C16.4", "recvLoop: delivery only for messages that are not the heartbeat", sel.Pos(), fnName(f), "dominated by !bytes.Equal(c.hb, buffer[:n])", "keep-alive heartbeats can surface as data on the reader's side")
 			}
+		}
+	}
+	// ordered delivery: the receive queue has one producer (the receive loop's own goroutine), which waits for the
+	// hand-over of a message before it reads the next one
+	{
+		n := 0
+		for _, f := range fns {
+			if fnPkgPath(f) != repoMod+"/"+dt {
+				continue
+			}
+			sends := false
+			eachInstr(f, func(in ssa.Instruction) {
+				switch x := in.(type) {
+				case *ssa.Select:
+					for _, st := range x.States {
+						if st.Dir == 1 && strings.HasSuffix(pathOf(st.Chan), ".recvCh") {
+							sends = true
+							n++
+							r.Check(x.Blocking, "C16.4", fnName(f)+": the hand-over to recvCh waits for room", in.Pos(), fnName(f), "blocking select (no default)",
+								"a message that does not fit the receive queue is not waited for: it is dropped or handed over out of band, and the reader no longer sees the peer's messages in order")
+						}
+					}
+				case *ssa.Send:
+					if strings.HasSuffix(pathOf(x.Chan), ".recvCh") {
+						sends = true
+						n++
+					}
+				}
+			})
+			if !sends {
+				continue
+			}
+			// the producer runs on the receive loop's goroutine: it is recvLoop, or only ever called (not started) from it
+			inLoop := strings.HasSuffix(fnName(f), "hbConn).recvLoop")
+			if !inLoop {
+				sites, asValue := callersOf(f)
+				inLoop = !asValue && len(sites) > 0
+				for _, sc := range sites {
+					if sc.Parent() == nil || !strings.HasSuffix(fnName(sc.Parent()), "hbConn).recvLoop") {
+						inLoop = false
+					}
+				}
+			}
+			spawns := false
+			eachInstr(f, func(in ssa.Instruction) {
+				if _, ok := in.(*ssa.Go); ok {
+					spawns = true
+				}
+			})
+			r.Check(inLoop && !spawns, "C16.4", fnName(f)+": messages are queued by the receive loop's goroutine only", f.Pos(), fnName(f), "the only producer of recvCh; starts no goroutine",
+				"messages reach the receive queue from more than one goroutine (a producer outside the receive loop, or one started per message): their order in the queue is no longer the order they were received in")
+		}
+		if n == 0 {
+			r.Unk("C16.4", "recvCh producers", token.NoPos, "", "no send to recvCh found in pkg/dtls")
 		}
 	}
 	// hbConn.Read / deliver: data first
